@@ -159,6 +159,7 @@ def run(ctx, crate):
     rule_key_table(ctx, crate)
     rule_tick_str(ctx, crate)
     rule_tracker_lifecycle(ctx, crate)
+    rule_arm_buffer_fresh(ctx, crate)
     from .c05 import rule_paint_reads_live_state
     rule_paint_reads_live_state(ctx, crate)
 
@@ -294,3 +295,105 @@ def rule_tracker_lifecycle(ctx, crate, rule="R-TRACKER-LIFECYCLE"):
         ins = [c for c in wk.calls(r"std::collections::HashMap::<K, V, S, A>::insert") if wk.slice_args(c, [0], through_calls=False).has_field("format_map")]
         ok = bool(ins) and all(wk.slice_args(c, [1]).params() == {2} and 3 in wk.slice_args(c, [2]).params() for c in ins)
         ctx.check(ok, rule, "with_key-registers", wk.name, K.fn_loc(wk), "with_key(key, tracker) registers the tracker under the key", "with_key does not register the tracker under its key", cfg)
+
+
+# ---- R-ARM-BUFFER-FRESH ------------------------------------------------------------------------------
+
+STD_WRITES = (r"std::string::String::(push|push_str|insert|insert_str|extend.*|retain|truncate|replace_range)", r"std::fmt::Write::(write_fmt|write_str|write_char)",
+              r"<std::string::String as std::fmt::Write>::.*", r"std::iter::Extend::extend")
+STD_CLEARS = (r"std::string::String::clear", r"std::mem::take", r"std::string::String::drain")
+
+
+def buffer_ops(crate, b, target, depth=0):
+    """(writes, clears) = calls in b that may leave text in / empty the String at `target` (a local index; for a
+    pointer parameter the pointee). Crate callees are summarised by leaves_dirty()."""
+    refs = b.ref_origins()
+    # aliases: aggregates holding a pointer to target (e.g. TabRewriter(&mut buf, ..))
+    alias = {target}
+    changed = True
+    while changed:
+        changed = False
+        for i, j, s in b.assigns():
+            rv = s["rv"]
+            if rv["k"] == "agg" and s["lhs"]["l"] not in alias:
+                for o in rv["ops"]:
+                    l = operand_local(o)
+                    if l is not None and any(tl in alias for tl, tp in refs.get(l, ())):
+                        alias.add(s["lhs"]["l"])
+                        changed = True
+            if rv["k"] == "cast" and s["lhs"]["l"] not in alias:
+                l = operand_local(rv["op"])
+                if l is not None and (l in alias and b.is_ptr_local(l)):
+                    pass
+    writes, clears = [], []
+    for c in b.calls():
+        if c.matches(*b.REF_FORWARD):
+            continue
+        for k, a in enumerate(c.args):
+            l = operand_local(a)
+            if l is None or "&mut" not in b.locals[l]["ty"]:
+                continue
+            if not any(tl in alias for tl, tp in refs.get(l, ())) and l not in alias:
+                continue
+            if c.matches(*STD_CLEARS):
+                clears.append(c)
+            elif c.matches(*STD_WRITES) or c.callee.get("trait") == "style::ProgressTracker":
+                writes.append(c)
+            elif c.callee.get("local") and depth < 3:
+                dirty = False
+                for t in crate.resolve_targets(c):
+                    cb = crate.bodies.get(t)
+                    if cb and k + 1 <= cb.arg_count and leaves_dirty(crate, cb, k + 1, depth + 1):
+                        dirty = True
+                if dirty:
+                    writes.append(c)
+            break
+    return writes, clears
+
+
+def leaves_dirty(crate, cb, param, depth):
+    w, cl = buffer_ops(crate, cb, param, depth)
+    cbbs = [c.bb for c in cl]
+    rets = set(cb.return_blocks())
+    for x in w:
+        if cb.reach(cb.succ(x.bb), avoid=cbbs) & rets or (x.bb in rets):
+            return True
+    return False
+
+
+def rule_arm_buffer_fresh(ctx, crate, rule="R-ARM-BUFFER-FRESH"):
+    """Each placeholder is rendered into a shared scratch String that later code pads and copies: no text left in it by
+    an earlier writer (an earlier placeholder, or push_line/expand, which render wide_msg into the same buffer) may
+    reach a placeholder's write without an intervening clear."""
+    cfg = crate.config
+    b = K.find_one(ctx, crate, rule, r"style::ProgressStyle::format_state")
+    if not b:
+        return
+    heads = [c for c in b.calls(r"std::iter::Iterator::next") if b.slice_args(c, [0]).has_field("parts")]
+    if not heads:
+        ctx.lost(rule, cfg, "loop over template parts not found")
+        return
+    H = heads[0].bb
+    # candidate buffers: String locals that receive placeholder output
+    arms = key_arms(b)
+    arm_blocks = set()
+    for k, (c, reg) in arms.items():
+        arm_blocks |= reg
+    n = 0
+    for L, loc in enumerate(b.locals):
+        if loc["ty"] != "std::string::String" or L <= b.arg_count:
+            continue
+        writes, clears = buffer_ops(crate, b, L)
+        arm_writes = [w for w in writes if w.bb in arm_blocks or w.callee.get("trait") == "style::ProgressTracker"]
+        if not arm_writes:
+            continue
+        n += 1
+        cbbs = [c.bb for c in clears]
+        dirty_sources = [s for s in writes if H in b.reach(b.succ(s.bb), avoid=cbbs)]
+        stale = [w for w in arm_writes if w.bb in b.reach(b.succ(H), avoid=cbbs)]
+        ok = not (dirty_sources and stale)
+        ctx.check(ok, rule, "scratch-buffer:%s" % (loc.get("name") or "tmp"), b.name, (stale[0].loc() if stale else K.fn_loc(b)),
+                  "every placeholder write is preceded (within its iteration) by a clear of the scratch buffer, or every earlier writer leaves it empty (%d writers, %d clears)" % (len(writes), len(clears)),
+                  "text left in the scratch buffer by %s can reach the placeholder write at line %s without a clear: the placeholder renders on top of stale text" % (
+                      sorted({K.meth(s.path) for s in dirty_sources})[:4], stale[0].line if stale else "?"), cfg)
+    ctx.floor(rule, n, 1, cfg, "scratch buffers written by placeholder arms")
